@@ -23,7 +23,7 @@ META = {
     'level_text': (
         'Runtime oracle: for each program shape (main of tagged PRINTs with KEY(n)/TIMER/PEN/STRIG ON|OFF|STOP at chosen '
         'points, handlers printing enter/leave tags and optionally turning their event ON/OFF, raising a trapped '
-        'error, re-executing their ON <event> GOSUB or ENDing; ON <event> GOSUB re-executed in the main part after ON / after STOP; optional ON ERROR handler with RESUME NEXT) and each schedule, the trace printed by the real '
+        'error (resumed by RESUME NEXT, or by RESUME <line> outside the handler), ending in RETURN or RETURN <line>, calling a plain GOSUB level, re-executing their ON <event> GOSUB or ENDing; ON <event> GOSUB re-executed in the main part after ON / after STOP; optional ON ERROR handler with RESUME NEXT) and each schedule, the trace printed by the real '
         'interpreter must equal a trace accepted by the automaton written from the statement. All schedules up to the '
         'stated bound are enumerated; seeded random programs/schedules of the same family are added on top.'),
     'level_note': (
@@ -34,7 +34,8 @@ META = {
         'discards an occurrence remembered during STOP; what a STOP issued while the trap is OFF remembers. Not '
         'generated: STOP on a trap that was never ON, STOP of a trap inside its own handler, two occurrences of the '
         'same event at the same boundary (indistinguishable from one under a remembered-flag reading), errors inside '
-        'the error handler. An occurrence while ON is expected to be handled at the boundary where it is delivered '
+        'the error handler, CLEAR / RUN / STOP+CONT inside a handler (what they do to trap state is not in the statement), an ON in '
+        'the main part after a handler was abandoned by RESUME <line>. An occurrence while ON is expected to be handled at the boundary where it is delivered '
         '(pcbasic polls once per statement). COM traps need a serial device and PLAY traps a draining music queue: '
         'not exercised.'),
     'rule': ('case = (program shape, event kinds, schedule); distinct by that triple; non-trivial = at least one occurrence '
@@ -43,19 +44,21 @@ META = {
     'assumptions': ['events reach the engine only at EventQueues.check_events (one per statement)',
                     'one program statement per line, so boundary k+1 of RUN precedes the k-th executed statement'],
     'exhaustive': {
-        'quick': ('for each of the 32 quick program shapes of shape_list() (29 single-trap (main, handler) combinations over KEY/TIMER/PEN/STRIG, '
-                  '3 two-trap shapes; 30282 schedules): ALL placements of at most 3 '
+        'quick': ('for each of the 38 quick program shapes of shape_list() (35 single-trap (main, handler) combinations over KEY/TIMER/PEN/STRIG, '
+                  '3 two-trap shapes; 33738 schedules): ALL placements of at most 3 '
                   'occurrences over (trap, position) slots, position = before statement boundary 1..14 or after END, no two '
                   'occurrences of one trap at one position'),
-        'thorough': ('for every (main, handler) combination of the single-trap family (12 x 9) with 2 event kinds each, the 6 two-trap shapes '
-                     'and the 2 three-trap shapes (224 shapes, 939284 schedules): ALL placements of at most 4 occurrences over (trap, position) slots, position = '
+        'thorough': ('for every (main, handler) combination of the single-trap family (12 mains x 13 handlers, less 6 unpinned pairs) with 2 event kinds each, the 6 two-trap shapes '
+                     'and the 2 three-trap shapes (308 shapes, 1102328 schedules): ALL placements of at most 4 occurrences over (trap, position) slots, position = '
                      'before statement boundary 1..14 or after END, no two occurrences of one trap at one position'),
     },
     'require_counters': {'any': ['handler_entries_observed', 'occurrences_lost_while_off', 'occurrences_remembered_during_stop',
                                  'entries_after_stop_then_on', 'occurrences_remembered_while_handler_runs',
                                  'occurrences_during_error_handler', 'reentries_after_on_inside_handler',
                                  'occurrences_after_program_end', 'simultaneous_firings',
-                                 'on_event_gosub_reexecuted_while_stopped_pending_or_in_handler']},
+                                 'on_event_gosub_reexecuted_while_stopped_pending_or_in_handler',
+                                 'entries_after_handler_left_by_return_line', 'plain_gosub_levels_inside_handler',
+                                 'handlers_abandoned_by_resume_line']},
     'timeout': {'quick': 900, 'thorough': 10800},
 }
 
@@ -113,9 +116,18 @@ HANDLERS = {
     'long': (lambda x: [T(x + '<'), T(x.lower() + '1'), T(x.lower() + '2'), T(x + '>'), ['ret']], False),
     # the handler re-executes its own ON <event> GOSUB: that is not turning the event back ON
     'redef': (lambda x: [T(x + '<'), ['redef', x], T(x.lower() + '1'), T(x + '>'), ['ret']], False),
+    # other ways a handler ends or is left
+    'retline': (lambda x: [T(x + '<'), T(x + '>'), ['retto', 'TAG3']], False),           # RETURN <line>
+    'retline_min': (lambda x: [T(x + '<'), ['retto', 'TAG2']], False),
+    'gosub': (lambda x: [T(x + '<'), ['gosub'], T(x + '>'), ['ret']], False),              # a plain GOSUB level inside
+    'errout': (lambda x: [T(x + '<'), ERR, T(x + '>'), ['ret']], 'out'),                  # error, RESUME <line> outside
 }
 
 ERRH = [T('E<'), T('E>'), ['resume']]
+# error handler that leaves through RESUME <line> (a main line): an event handler in which the error happened is
+# thereby left without RETURN
+ERRH_OUT = [T('E<'), ['resumeto', 'TAG3']]
+SUB = [T('s1'), ['ret']]
 
 # event kinds: name letter, kind, argument
 KINDS = {
@@ -137,7 +149,8 @@ def single_shape(mname, hname, kind):
             'traps': [KINDS[kind]],
             'main': main_tags(mf(kind)),
             'handlers': {kind: hf(kind)},
-            'errh': ERRH if (me or he) else None}
+            'sub': SUB if hname == 'gosub' else None,
+            'errh': ERRH_OUT if he == 'out' else (ERRH if (me or he) else None)}
 
 
 def multi_shapes():
@@ -192,7 +205,9 @@ def shape_list(tier):
                   ('stopon', 'h0'), ('stopon', 'on'), ('stopoffon', 'h0'), ('err', 'h0'), ('err', 'err'), ('stoperr', 'h0'),
                   ('early', 'h0'), ('early', 'end'), ('onoff', 'offon'), ('flip', 'h0'), ('flip', 'min'), ('never', 'h0'),
                   ('plain', 'err'), ('stopon', 'off'), ('onoff', 'h0'), ('plain', 'end'), ('stoperr', 'on'), ('offon', 'long'),
-                  ('redef_on', 'h0'), ('redef_stop', 'h0'), ('plain', 'redef'), ('stopon', 'redef'), ('redef_stop', 'redef')]
+                  ('redef_on', 'h0'), ('redef_stop', 'h0'), ('plain', 'redef'), ('stopon', 'redef'), ('redef_stop', 'redef'),
+                  ('plain', 'retline'), ('stopon', 'retline'), ('offon', 'retline_min'), ('plain', 'gosub'), ('plain', 'errout'),
+                  ('flip', 'retline')]
         for i, (m, h) in enumerate(combos):
             shapes.append((single_shape(m, h, KIND_CYCLE[i % 4]), 3))
         shapes.append((multi_shape('2a', ['K', 'T']), 3))
@@ -202,6 +217,10 @@ def shape_list(tier):
         i = 0
         for m in sorted(MAINS):
             for h in sorted(HANDLERS):
+                if h == 'errout' and m not in ('plain', 'early', 'onoff', 'never', 'err', 'redef_on'):
+                    # no ON in the main part after a handler may have been abandoned by RESUME <line> (not pinned)
+                    i += 1
+                    continue
                 for j in range(2):
                     shapes.append((single_shape(m, h, KIND_CYCLE[(i + 3 * j) % len(KIND_CYCLE)]), 4))
                 i += 1
@@ -283,6 +302,12 @@ def to_basic(prog):
             text = b'ERROR 77'
         elif op == 'ret':
             text = b'RETURN'
+        elif op == 'retto':
+            text = b'RETURN %d' % line_of(st[2])
+        elif op == 'gosub':
+            text = b'GOSUB %d' % line_of(st[1])
+        elif op == 'resumeto':
+            text = b'RESUME %d' % line_of(st[2])
         elif op == 'resume':
             text = b'RESUME NEXT'
         elif op == 'end':
@@ -409,6 +434,10 @@ STAT_COUNTERS = [
     ('pending_at_off', 'remembered_occurrence_at_off_unpinned'),
     ('unpinned_stop_while_off', 'occurrences_during_stop_while_off_unpinned'),
     ('coalesced', 'occurrences_coalesced_into_one_remembered'),
+    ('handlers_left_by_return_line', 'handlers_left_by_return_line'),
+    ('entries_after_return_line', 'entries_after_handler_left_by_return_line'),
+    ('plain_gosub_levels_inside_handler', 'plain_gosub_levels_inside_handler'),
+    ('handlers_abandoned_by_resume_line', 'handlers_abandoned_by_resume_line'),
     ('redefinitions', 'on_event_gosub_reexecuted'),
     ('redefinitions_in_nontrivial_state', 'on_event_gosub_reexecuted_while_stopped_pending_or_in_handler'),
 ]
@@ -493,14 +522,15 @@ def gen_program(rng, idx):
     handlers = {}
     hnames = []
     for k in kinds:
-        opts = ['h0', 'h0', 'on', 'off', 'min', 'offon', 'long', 'redef', 'end'] + (['err'] if use_err else [])
+        opts = ['h0', 'h0', 'on', 'off', 'min', 'offon', 'long', 'redef', 'retline', 'retline_min', 'gosub', 'end'] + (['err'] if use_err else [])
         hn = rng.choice(opts)
         if hn == 'end' and rng.random() < 0.7:
             hn = 'h0'
         hnames.append(hn)
         handlers[k] = HANDLERS[hn][0](k)
     return {'id': 'r%d:%s/%s' % (idx, ''.join(kinds), ','.join(hnames)), 'traps': [KINDS[k] for k in kinds],
-            'main': main_tags(body), 'handlers': handlers, 'errh': ERRH if use_err else None}
+            'main': main_tags(body), 'handlers': handlers, 'sub': SUB if 'gosub' in hnames else None,
+            'errh': ERRH if use_err else None}
 
 
 def gen_schedule(rng, prog, nb):
@@ -554,6 +584,10 @@ def directed(rig, res):
     D.append(('redef-in-handler-no-reentry', P('plain', 'redef', 'K'), {3: ['K'], 5: ['K']}))
     D.append(('redef-after-stop-stays-stopped', P('redef_stop', 'h0', 'K'), {7: ['K']}))
     D.append(('redef-keeps-remembered-occurrence', P('redef_stop', 'h0', 'S'), {5: ['S']}))
+    D.append(('return-line-reenables', P('plain', 'retline', 'K'), {3: ['K'], 7: ['K']}))
+    D.append(('return-line-reenables-pen', P('plain', 'retline_min', 'P'), {4: ['P'], 5: ['P'], 8: ['P']}))
+    D.append(('gosub-level-does-not-reenable', P('plain', 'gosub', 'S'), {3: ['S'], 5: ['S'], 9: ['S']}))
+    D.append(('resume-line-leaves-handler-blocked', P('plain', 'errout', 'K'), {3: ['K'], 8: ['K']}))
     D.append(('two-simultaneous', multi_shape('2a', ['K', 'T']), {5: ['K', 'T']}))
     for tag, prog, sched in D:
         rig.load(prog)
